@@ -389,4 +389,8 @@ class Ctx:
             "wall_s": round(time.time() - self.t0, 2),
             "violations": violations,
         }
-        (EVIDENCE / f"{self.prop}.json").write_text(json.dumps(ev, indent=1, default=str))
+        # development runs (--no-proofs, or against a scratch tree through VERIF_REPO) never overwrite the real evidence
+        dev = (not self.obligations) or str(REPO) != "/repo"
+        target = (EVIDENCE / "dev" / f"{self.prop}.json") if dev else (EVIDENCE / f"{self.prop}.json")
+        target.parent.mkdir(parents=True, exist_ok=True)
+        target.write_text(json.dumps(ev, indent=1, default=str))
